@@ -369,15 +369,19 @@ def r5(ctx, r):
         r.fail(f, e, "read outside record: %s" % what.split("(")[0], "the log decoder performs `%s` needing %s bytes while only %s are known to remain before `end`: a corrupt or torn record "
                "makes replay read outside the record buffer" % (what, show_form(need), show_form(have)))
     # every symbolic length is bounded by a constant before it is added to the cursor
-    for sym, lim in (("keyLen", 65536), ("valLen", 100 * 1024 * 1024), ("totalLen", 100 * 1024 * 1024)):
+    # (the bound only has to keep `ptr + len` from wrapping: any constant below 2^31; that it is also LARGE enough is R8)
+    bounds = {}
+    for sym in ("keyLen", "valLen", "totalLen"):
         r.instance()
         ok = False
         for b in f.blocks.values():
-            cp = common.cmp_parts(b.cond) if b.cond is not None else None
-            if cp and cp[0] in (">", ">=") and strip_casts(cp[1]).get("k") == "var" and strip_casts(cp[1])["n"] == sym and const_value(cp[2]) is not None and const_value(cp[2]) <= lim:
+            co = common.cmp_oriented(b.cond, lambda x: const_value(x) is not None) if b.cond is not None else None
+            if co and co[0] in (">", ">=") and strip_casts(co[1]).get("k") == "var" and strip_casts(co[1])["n"] == sym and const_value(co[2]) < 2 ** 31:
                 ok = True
+                bounds.setdefault(sym, []).append(const_value(co[2]) - (1 if co[0] == ">=" else 0))
         r.expect(ok, f, None, "%s unbounded" % sym, "the decoded length %s is not compared with a constant upper bound before it is used in `ptr + %s` (pointer arithmetic could wrap)" % (sym, sym),
                  okdesc="%s bounded by a constant" % sym)
+    ctx._c11_replay_bounds = bounds
     # the CRC is verified before any field is used
     crc = [b for b in f.blocks.values() if b.cond is not None and "crc32(" in show(b.cond) and "storedCrc" in show(b.cond)]
     ptrdecl = [e for e in f.stmts() if e.node.get("k") == "decl" and any(v["n"] == "ptr" for v in e.node["vars"])]
@@ -521,6 +525,36 @@ def r7(ctx, r):
                  okdesc="good() tested after close, failure ⇒ no rename")
 
 
+def r8(ctx, r):
+    """Writer/reader agreement on sizes: whatever set()/setBatch()/expireAt() accept and journal, the replay must admit.  The
+    widest record writeLogEntry frames is op(1) + keyLen(4) + key + expiry(8) + valLen(4) + value + crc(4); a replay bound below
+    that takes a complete record for a torn tail and truncates it AND every later record away."""
+    fb = ctx.fb()
+    vk = [g for g in fb.in_file(KVF) if g.ok and last(g.name) == "validateKeyValue"]
+    if not vk:
+        raise AnalysisBroken("validateKeyValue not found")
+    lim = {}
+    for b in vk[0].blocks.values():
+        co = common.cmp_oriented(b.cond, lambda x: const_value(x) is not None) if b.cond is not None else None
+        if co and co[0] in (">", ">="):
+            t = show(co[1])
+            which = "key" if t.startswith("key.") else ("value" if t.startswith("value.") else None)
+            if which:
+                lim[which] = const_value(co[2]) - (1 if co[0] == ">=" else 0)
+    if set(lim) != {"key", "value"}:
+        raise AnalysisBroken("validateKeyValue: key/value size limits not identified (%s)" % lim)
+    bounds = getattr(ctx, "_c11_replay_bounds", None)
+    if not bounds:
+        raise AnalysisBroken("replay bounds not collected (C11-R5 did not run)")
+    need = {"keyLen": lim["key"], "valLen": lim["value"], "totalLen": 1 + 4 + lim["key"] + 8 + 4 + lim["value"] + 4}
+    for sym, n in need.items():
+        r.instance()
+        got = max(bounds.get(sym, [0]))
+        r.expect(got >= n, fb.func(KV + "::load"), None, "replay refuses what the writer accepts: %s" % sym,
+                 "load() stops the replay at a record whose %s exceeds %d, but the setters accept and journal records up to %d (key <= %d, value <= %d bytes): such a record — and every record after it — is taken for "
+                 "a torn tail and truncated away on the next open (values lost, removed keys come back)" % (sym, got, n, lim["key"], lim["value"]), okdesc="replay admits %s up to %d (writer max %d)" % (sym, got, n))
+
+
 def run(ctx, ck):
     ck.run_rule("C11-R1", "closed set of file-mutating sites with their paths and modes", "A3 + A10", lambda r: r1(ctx, r))
     ck.run_rule("C11-R2", "acknowledge only after log write + flush; failed writes throw", "A5 ghost + A2", lambda r: r2(ctx, r))
@@ -532,5 +566,6 @@ def run(ctx, ck):
         r3.broken = str(ex)
         ck.broken.append("C11-R3/R4: %s" % ex)
     ck.run_rule("C11-R5", "the log decoder never reads outside a record", "A7 cursor-window abstract interpretation", lambda r: r5(ctx, r))
+    ck.run_rule("C11-R8", "the log replay admits every record size the setters accept (writer/reader size agreement)", "table agreement over the extracted constants", lambda r: r8(ctx, r))
     ck.run_rule("C11-R6", "a torn tail is cut before new records follow it", "A2 + dataflow shape", lambda r: r6(ctx, r))
     ck.run_rule("C11-R7", "whole-file stores are replaced atomically", "A10 + A2", lambda r: r7(ctx, r))
